@@ -299,7 +299,9 @@ func Explore[S any](t *testing.T, c Check[S]) {
 				return // budget used up: remaining iterations of this batch are no-ops
 			}
 			sc := c.Draw(rt, env.Tier)
+			sched.Heartbeat.Add(1) // checks without a scheduler (C16, parts of C07/C08/C09) make progress run by run
 			res := c.Run(t, sc, failing)
+			sched.Heartbeat.Add(1)
 			if be := sched.TakeBubbleError(); be != "" && res.HarnessErr == "" {
 				res.HarnessErr = "bubble root goroutine blocked for good after the run: " + be
 				if len(res.HarnessErr) > 6000 {
